@@ -261,11 +261,24 @@ def service_canary_class():
     return _SERVICE_CANARY[0]
 
 
+FALLBACK = "getslice_fb"          # the second, peer-chosen name of `_handle_oldslicing`; every canary has it
+
+
+class RaisingVal(Val):
+    """a value whose call raises (after being logged): makes the first stage of oldslicing fail in the call"""
+    def __call__(self, *args, **kwargs):
+        Val.__call__(self, *args, **kwargs)
+        raise ValueError("the object's own failure")
+
+
+RAISING = [False]       # build the shapes' name/twin values as RaisingVal
+
+
 def fill(obj, tag, names):
     object.__setattr__(obj, "_tag", tag)
-    for n in names:
+    for n in list(names) + [FALLBACK]:
         try:
-            object.__setattr__(obj, n, Val(n))
+            object.__setattr__(obj, n, RaisingVal(n) if (RAISING[0] and n != FALLBACK) else Val(n))
         except TypeError:
             pass                    # e.g. __class__: inherited, cannot hold a canary value; the object has it anyway
     return obj
@@ -370,7 +383,7 @@ class Shape(object):
             attrs = [name] if "n" in self.kw["attrs"] else ["other_attr"]
             w = "N" if self.kw["wattrs"] is None else slist([name] if "n" in self.kw["wattrs"] else [])
             # hasattr(view, n): class/instance attributes of the view, plus (via __getattr__) listed names the target has
-            vn = sorted(set(object.__dir__(obj)) | set(a for a in attrs if a in names))
+            vn = sorted(set(object.__dir__(obj)))       # what the view has ITSELF; listed names go through __getattr__
             del LOG[:]
             return ["policy obj 1 plain " + slist(dir_names(fill(Plain(), 1, names))),
                     "policy obj 0 restricted 1 %s %s %s" % (slist(attrs), w, slist(vn))]
@@ -450,6 +463,17 @@ def decoded_or_fallback(name):
 
 
 REQS = ["getattr", "setattr", "delattr", "callattr"]
+OLD_R_SHAPES = ("has-name", "has-both", "hooks-allow-name", "restricted-attrs-name", "service-subclass")
+
+
+def build_for(shape, req, text, twin):
+    """fresh real object for one request (values raise when called for `oldslicing-r`)"""
+    RAISING[0] = req == "oldslicing-r"
+    try:
+        return shape.build(text, twin)
+    finally:
+        RAISING[0] = False
+
 CALL_ARGS = (1, "two")
 CALL_KWARGS = (("k", 3),)
 
@@ -485,6 +509,12 @@ def run_real(conn, obj, req, name):
             v = LAST.get("val")
             if not (type(res) is tuple and len(res) == 2 and res[1] is v and v.got == ((None, None, None), {})):
                 note = " !passthrough: ctxexit did not call __exit__(None, None, None)"
+        elif req in ("oldslicing", "oldslicing-r"):
+            res = conn._handle_oldslicing(obj, name, FALLBACK, 1, 5, ("x",))
+            v = LAST.get("val")
+            if not (type(res) is tuple and len(res) == 2 and res[1] is v
+                    and v.got in (((slice(1, 5), "x"), {}), ((1, 5, "x"), {}))):
+                note = " !passthrough: oldslicing did not call the value read with the slice arguments"
         elif req == "cmp":
             other = object()
             res = conn._handle_cmp(obj, other, name)
@@ -543,15 +573,9 @@ def flatten_model(line):
 
 
 def observable(shape, line):
-    """drop what cannot be compared for a shape: reads of the TARGET made by a restricted view's own __getattr__
-    while `hasattr(view, ..)` is probed (delete requests on views fall to the configuration)"""
-    if shape.kind != "restricted":
-        return line
-    evs, _, out = line.rpartition("-> ")
-    toks = evs.split()
-    if any(t.startswith("d0:") or t.startswith("g0:") for t in toks):
-        toks = [t for t in toks if not t.startswith("g1:")]
-    return "".join(t + " " for t in toks) + "-> " + out
+    """kept for call sites: nothing is dropped any more — a restricted view's `__getattr__` reading the target while
+    `hasattr(view, ..)` is probed is modelled (`probeExtra`) and compared like everything else"""
+    return line
 
 
 # ------------------------------------------------------------------------------------------------ configurations
@@ -647,7 +671,8 @@ def table_cases(prefixes, shapes=None, name_filter=None, safe=None):
                 tok = name_token(name)
                 for shape in (shapes or SHAPES):
                     setup = shape.describe(text, twin)
-                    reqs = REQS + (["ctxexit"] if ckey == "dunder-exit" else [])
+                    reqs = REQS + ["oldslicing"] + (["oldslicing-r"] if shape.key in OLD_R_SHAPES else []) \
+                        + (["ctxexit"] if ckey == "dunder-exit" else [])
                     for i, (bits, conn) in enumerate(conns):
                         for req in reqs:
                             case = dict(kind="input", prefix=p, bits=bits_str(bits), name_class=ckey,
@@ -656,11 +681,14 @@ def table_cases(prefixes, shapes=None, name_filter=None, safe=None):
                                 case["safe"] = list(safe)
                             if req == "ctxexit":
                                 line = "policy ctx %d 0" % i
+                            elif req in ("oldslicing", "oldslicing-r"):
+                                line = "policy old %d 0 %s %s %s" % (i, tok, stok(FALLBACK),
+                                                                     "T" if req == "oldslicing-r" else "F")
                             else:
                                 line = "policy acc %d 0 %s %s" % (i, req, tok)
                             yield (case, cfg_lines, setup, line,
                                    (lambda conn=conn, shape=shape, req=req, name=name, text=text, twin=twin:
-                                    run_real(conn, shape.build(text, twin), req, name)), shape)
+                                    run_real(conn, build_for(shape, req, text, twin), req, name)), shape)
                         cfg_lines = []
                         setup = []
                 for skey, kind, has in CMP_SHAPES:
@@ -737,7 +765,7 @@ def panel_setup_lines():
     out.append("policy obj 11 service " + slist(dir_names(o)))
     v = panel_object("view")
     tnames = ["foo", "_x", "__secret__", "exposed_bar", "xbar", "get_bar", "exposed_foo", "x_x", "other_attr"]
-    vn = sorted(set(object.__dir__(v)) | set(["foo"]))
+    vn = sorted(set(object.__dir__(v)))
     del LOG[:]
     out.append("policy obj 1 plain " + slist(dir_names(fill(Plain(), 1, tnames))))
     # the view is object 0 in its own log; the driver numbers it 12 -> renumbered when compared
@@ -791,6 +819,7 @@ def gen_env_overlay(r):
 
 
 N_DICTS = 2
+CLASSIC_KINDS = ("slave", "classic-pair")       # connection kinds whose local service grants itself classic mode
 
 
 def gen_history(r):
@@ -897,8 +926,6 @@ class HistoryRun(object):
             else:
                 cfg = self.dicts[ov]            # the OBJECT itself, not a copy: it may be edited later
             self.conns[i] = self.open_conn(kind, cfg)
-        elif ev[0] == "slave":
-            service.SlaveService().on_connect(self.conns[ev[1]])
         elif ev[0] == "close":
             self.conns[ev[1]].close()
         elif ev[0] == "edit":
@@ -912,21 +939,14 @@ class HistoryRun(object):
 
     def model_lines(self, ev):
         if ev[0] == "open":
-            lines = ["policy open %d %s" % (ev[1], overlay_tokens(ev[2]))]
-            if ev[3] == "slave":
-                lines.append("policy slave %d" % ev[1])
-            return lines
+            return ["policy open %d %s %s" % (ev[1], "classic" if ev[3] in CLASSIC_KINDS else "plain",
+                                             overlay_tokens(ev[2]))]
         if ev[0] == "openwith":
-            lines = ["policy openwith %d %d" % (ev[1], ev[2])]
-            if ev[3] == "slave":
-                lines.append("policy slave %d" % ev[1])
-            return lines
+            return ["policy openwith %d %s %d" % (ev[1], "classic" if ev[3] in CLASSIC_KINDS else "plain", ev[2])]
         if ev[0] == "edit":
             return ["policy dict %d %s" % (ev[1], overlay_tokens(ev[2]))]
         if ev[0] == "setdefault":
             return ["policy setdefault " + overlay_tokens(ev[1])]
-        if ev[0] == "slave":
-            return ["policy slave %d" % ev[1]]
         if ev[0] == "close":
             return ["policy close %d" % ev[1]]
         return []
@@ -1212,8 +1232,10 @@ def statement_table(cfg, op_key, text, has_name, has_twin):
 
 
 OP_KEY = {"getattr": "allow_getattr", "callattr": "allow_getattr", "ctxexit": "allow_getattr", "cmp": "allow_getattr",
+          "oldslicing": "allow_getattr", "oldslicing-r": "allow_getattr",
           "setattr": "allow_setattr", "delattr": "allow_delattr"}
-OP_KIND = {"getattr": "g", "callattr": "g", "ctxexit": "g", "cmp": "g", "setattr": "s", "delattr": "d"}
+OP_KIND = {"getattr": "g", "callattr": "g", "ctxexit": "g", "cmp": "g", "setattr": "s", "delattr": "d",
+           "oldslicing": "g", "oldslicing-r": "g"}
 
 
 def parse_observed(line):
@@ -1264,7 +1286,7 @@ def oracle_case(case):
             view = False
         else:
             shape = SHAPE_BY_KEY[case["shape"]]
-            obj = shape.build(text, twin)
+            obj = build_for(shape, req, text, twin)
             view = shape.kind == "restricted"
             hooks, hook_err = {}, "AttributeError"
             if shape.kind == "hooked":
@@ -1293,6 +1315,11 @@ def oracle_case(case):
         return "handler did not pass the accessor's result through: " + line
     effects = [(h, n) for h, n in entries if h[0] in "sdc" and not h.startswith("h")]
     kind = OP_KIND[req]
+    if req in ("oldslicing", "oldslicing-r"):
+        if hooks or view:
+            return None          # objects with their own read hook decide both stages themselves
+        return oracle_oldslicing(cfg, p, name, text, has_n, has_t, _real_has(obj, FALLBACK),
+                                 _real_has(obj, p + FALLBACK), req == "oldslicing-r", entries, out, line)
     # --- name typing
     if type(name) is not str:
         bad_bytes = type(name) is bytes and text == "zz" and name != b"zz"
@@ -1339,6 +1366,33 @@ def oracle_case(case):
     stray = [(h, n) for h, n in effects if n not in verdict[1]]
     if stray:
         return "allowed request also touched %r: %s" % (stray, line)
+    return None
+
+
+def oracle_oldslicing(cfg, p, name, text, has_n, has_t, has_fb, has_fbt, raising, entries, out, line):
+    """old-style slicing is two call-by-name requests in a row (the second only if the first ends in an exception):
+    each stage must follow the decision table; nothing outside what the table allows may be called"""
+    v1 = statement_table(cfg, "allow_getattr", text, has_n, has_t) if type(name) is str or (
+        type(name) is bytes and not (text == "zz" and name != b"zz")) else ("deny",)
+    v2 = statement_table(cfg, "allow_getattr", FALLBACK, has_fb, has_fbt)
+    allowed = set()
+    for v in (v1, v2):
+        if v[0] == "allow":
+            allowed |= v[1]
+    calls = [n for h, n in entries if h == "c"]
+    if any(n not in allowed for n in calls):
+        return "old-style slicing called %r, which the configuration allows for neither name (%s): %s" % (
+            calls, sorted(allowed), line)
+    if v1[0] == "deny" and v2[0] == "deny":
+        if out != "err AttributeError" or calls:
+            return "both names of an old-style slicing request are refused by the configuration; observed: " + line
+        return None
+    if v2[0] == "allow" and not out.startswith("invoked"):
+        return "the fallback name is allowed (%s) but old-style slicing failed: %s" % (sorted(v2[1]), line)
+    first_can_succeed = v1[0] == "allow" and not raising and (
+        (text in v1[1] and has_n) or ((p + text) in v1[1] and has_t and not (text in v1[1])))
+    if first_can_succeed and (len(calls) != 1 or calls[0] not in v1[1]):
+        return "the first name is allowed and present, it alone must be called (%s); observed: %s" % (sorted(v1[1]), line)
     return None
 
 
